@@ -1,7 +1,7 @@
 //! C02 / C01 / C18 — adjacent tokens never fuse into a different token.
 use crate::reference::*;
 use crate::source::Source;
-use crate::{claim, note, proof, witness};
+use crate::{claim, note, proof, observe};
 use darklua_core::verif::generator_utils as utils;
 
 pub const MAX_A: usize = 3;
@@ -50,12 +50,12 @@ pub fn fuse_tokens<S: Source>(s: &mut S) {
     let read_back = munch(&text[..n]);
     note!(s, "tokens {:?} then {:?}: should_break_with_space={} ; lexer reads {} byte(s) of {:?} as the first token",
         String::from_utf8_lossy(a), String::from_utf8_lossy(b), separated, read_back, String::from_utf8_lossy(&text[..n]));
-    witness!(separated, "a separator is requested");
-    witness!(!separated && classify(a) == TokenClass::Number, "number followed directly by a token");
-    witness!(!separated && classify(b) == TokenClass::Str, "token followed directly by a string");
+    observe!(separated, "a separator is requested");
+    observe!(!separated && classify(a) == TokenClass::Number, "number followed directly by a token");
+    observe!(!separated && classify(b) == TokenClass::Str, "token followed directly by a string");
     let open_ended_number =
         classify(a) == TokenClass::Number && (a[la - 1] == b'.' || a[la - 1] == b'_');
-    witness!(open_ended_number && !separated, "number literal ending in `.` or `_` followed directly by a token");
+    observe!(open_ended_number && !separated, "number literal ending in `.` or `_` followed directly by a token");
     if open_ended_number {
         claim!(s, separated || read_back == la, "a number literal spelled with a trailing `.` or `_` is read back as written when the next token follows without separator");
     } else {
@@ -83,7 +83,7 @@ pub fn fuse_dense<S: Source>(s: &mut S) {
     note!(s, "dense: tokens {:?} then {:?}", String::from_utf8_lossy(a), String::from_utf8_lossy(b));
     if b == b".." {
         claim!(s, utils::break_concat(last_push) || read_back, "`..` written right after a token is read back as `..`");
-        witness!(utils::break_concat(last_push), "break before concat");
+        observe!(utils::break_concat(last_push), "break before concat");
     } else if b == b"..." {
         claim!(s, utils::break_variable_arguments(last_push) || read_back, "`...` written right after a token is read back as `...`");
     } else if b == b"-" {
@@ -94,7 +94,7 @@ pub fn fuse_dense<S: Source>(s: &mut S) {
         claim!(s, character_rule || read_back, "`=` written with the character rule is read back as `=`");
     } else if classify(b) == TokenClass::Str && b[0] == b'[' {
         claim!(s, utils::break_long_string(last_push) || read_back, "a long string written right after a token is read back as written");
-        witness!(utils::break_long_string(last_push), "break before long string");
+        observe!(utils::break_long_string(last_push), "break before long string");
     } else {
         claim!(s, character_rule || read_back, "dense: two adjacent tokens written without separator are read back as written");
     }
